@@ -247,9 +247,93 @@ def check_sig(s, acc, unknown=None, cdef=False):
         core.unload_source(ns)
 
 
+# ---------------------------------------------------------------------------------------------------------------
+# _ARGS / _KWARGS across several precondition groups: a failed earlier group (whose message is generated) must not change
+# what the later group, the captures and the postconditions of the same call receive
+
+GROUPS_SRC = '''\
+import icontract
+LOG = []
+T = {}
+class Obj:
+    def __init__(self, tag): self.tag = tag
+    def __repr__(self): return "<" + self.tag + ">"
+def ids(_ARGS, _KWARGS):
+    return (tuple(id(v) for v in _ARGS), tuple(sorted((k, id(v)) for k, v in _KWARGS.items())))
+class A(icontract.DBC):
+    @icontract.require(lambda x, _ARGS: (LOG.append(("base", id(x), len(_ARGS))) or T.get("base", True)))
+    {adef} m(self, x, *args, **kwargs):
+        return 0
+class B(A):
+    @icontract.snapshot(lambda _ARGS, _KWARGS: (LOG.append(("cap",) + ids(_ARGS, _KWARGS)) or 1), name="s")
+    @icontract.require(lambda x, _ARGS, _KWARGS: (LOG.append(("own", id(x)) + ids(_ARGS, _KWARGS)) or T.get("own", True)))
+    @icontract.ensure(lambda x, _ARGS, _KWARGS, result, OLD: (LOG.append(("post", id(x)) + ids(_ARGS, _KWARGS)) or True))
+    {adef} m(self, x, *args, **kwargs):
+        LOG.append(("body", id(x), tuple(id(v) for v in args), tuple(sorted((k, id(v)) for k, v in kwargs.items()))))
+        return 1
+'''
+
+
+def check_groups(acc):
+    import icontract
+    for is_async in (False, True):
+        ns = core.load_source(GROUPS_SRC.replace("{adef}", "async def" if is_async else "def"), "c05g")
+        try:
+            Obj = ns["Obj"]
+            for base_t, own_t in ((True, True), (False, True), (True, False), (False, False)):
+                for npos, kws in ((1, ()), (3, ()), (1, ("z",)), (2, ("y", "z")), (0, ("x",)), (0, ("x", "z"))):
+                    b = ns["B"]()
+                    pos = tuple(Obj("P{}".format(i)) for i in range(npos))
+                    kw = {k: Obj("K_" + k) for k in kws}
+                    ns["T"].clear()
+                    ns["T"].update({"base": base_t, "own": own_t})
+                    del ns["LOG"][:]
+
+                    def go():
+                        try:
+                            r = b.m(*pos, **kw)
+                            if is_async:
+                                r = core.run_coro(r)
+                            return ("ret", r)
+                        except BaseException as e:  # noqa
+                            return ("exc", type(e).__name__, str(e)[:160])
+                    out = core.fresh_ctx_run(go)
+                    log = list(ns["LOG"])
+                    x = pos[0] if pos else kw["x"]
+                    want_args = tuple(id(v) for v in (b,) + pos)
+                    want_kwargs = tuple(sorted((k, id(v)) for k, v in kw.items()))
+                    acc.case(("groups", is_async, base_t, own_t, npos, kws), True, len(log), out[0])
+                    bad = None
+                    accepted = base_t or own_t
+                    if accepted and out != ("ret", 1):
+                        bad = ("wrong_outcome", "the effective precondition holds but the call gave {}".format(out))
+                    elif not accepted and (out[0] != "exc" or out[1] != "ViolationError"):
+                        bad = ("wrong_outcome", "both groups fail but the call gave {}".format(out))
+                    else:
+                        for ev in log:
+                            if ev[0] == "base" and (ev[1] != id(x) or ev[2] != len(want_args)):
+                                bad = ("condition_saw_wrong_value", "base group: {}".format(ev))
+                            elif ev[0] in ("own", "post") and (ev[1] != id(x) or ev[2] != want_args or ev[3] != want_kwargs):
+                                bad = ("_ARGS_wrong", "{}: _ARGS/_KWARGS/x differ from the call".format(ev[0]))
+                            elif ev[0] == "cap" and (ev[1] != want_args or ev[2] != want_kwargs):
+                                bad = ("_ARGS_wrong", "capture: _ARGS/_KWARGS differ from the call")
+                    if bad:
+                        acc.violation(core.Violation(
+                            PROP, bad[0], {"family": "groups", "self": "async" if is_async else True, "npos": npos, "kws": ",".join(kws), "base_holds": base_t, "own_holds": own_t},
+                            "B(A).m(self, x, *args, **kwargs) with two precondition groups (base holds: {}, own holds: {}), called with {} positionals and keywords {}: {} (log {})".format(
+                                base_t, own_t, npos, kws, bad[1], log), spec={"groups": True}, script=GROUPS_SRC))
+            acc.sample({"family": "groups", "async": is_async}, cap=1)
+        finally:
+            core.unload_source(ns)
+
+
 def work(chunk):
     acc = core.Acc()
-    for s, unknown, cdef in chunk:
+    for item in chunk:
+        if item == "groups":
+            check_groups(acc)
+            continue
+        s, unknown, cdef = item
         check_sig(s, acc, unknown, cdef)
     return acc.result()
 
@@ -272,7 +356,7 @@ def items(tier):
 
 def run(tier, t0):
     it = core.rotate(items(tier))
-    tot = core.merge(core.pmap(work, it))
+    tot = core.merge(core.pmap(work, list(it) + ["groups"]))
     return core.finish(
         PROP, tier, tot, t0,
         rule="every signature with <=2 positional-only, <=2 positional-or-keyword, optional *args, <=2 keyword-only, optional "
@@ -292,7 +376,10 @@ def run(tier, t0):
 def replay(path):
     data = json.load(open(path))["spec"]
     acc = core.Acc()
-    check_sig(data["sig"], acc, data.get("unknown"), data.get("cdef", False))
+    if data.get("groups"):
+        check_groups(acc)
+    else:
+        check_sig(data["sig"], acc, data.get("unknown"), data.get("cdef", False))
     for v in acc.violations[:5]:
         print("VIOLATION property={} replay={}".format(PROP, path))
         print(" ", v.symptom, v.detail[:300])
